@@ -302,6 +302,25 @@ class Reader:
     def local_appends(self, name):
         return [(e, ctx) for e, ctx in self.events() if e.kind == 'acc' and e.var == name and e.op == 'append']
 
+    def lecturer_of_project_appends(self):
+        """the per-line appends into the local list that maps a project to its lecturer: the list is identified by its USE
+        (it is what a pair's lecturer is looked up in), not by its name"""
+        X = None
+        for e, _ in iter_effects(self.effs):
+            if e.kind == 'store' and e.target[0] == 'attr' and e.target[2] == 'lecturerID':
+                for t in walk(e.value):
+                    if t[0] == 'idx' and contains(t[2], lambda y: y[0] == 'attr' and y[2] in ('project_index', 'projectID')) and t[1][0] in ('comp', 'accum', 'cat', 'list'):
+                        X = t[1]
+        byvar = {}
+        for e, ctx in self.events():
+            if e.kind == 'acc' and e.op == 'append':
+                byvar.setdefault(e.var, []).append((e, ctx))
+        if X is not None:
+            for var, aps in byvar.items():
+                if all(contains(X, lambda t, v=e.value: t == v) for e, _ in aps):
+                    return aps
+        return self.local_appends('project_lecturers')
+
     def header_stores(self, attr):
         """[(effect, field number, (lo, hi, other))] for the stores of a header count"""
         out = []
@@ -379,7 +398,7 @@ class Reader:
                     lo, hi, _ = self.interval(ctx)
                     first = lo == pconst(1) and hi == patom('ns')
                 except Unknown:
-                    first = '_create_pairs_row' in outer
+                    first = self.repo.actual_function('_create_pairs_row') in outer
                 (st if first else sec).append((e, ctx))
         return st, sec
 
@@ -565,7 +584,7 @@ def check_reader(rep, R):
         rep.check(lo == wl and hi == wh and not other, 'C10.R3', w, '%s is read on its own section %s' % (attr, cfg), got='%s..%s %s' % (pshow(lo), pshow(hi) if hi is not None else 'inf', [show(o) for o in other]),
                   want='%s..%s' % (pshow(wl), pshow(wh)), construct='%s section %s' % (attr, cfg), loc=e.loc)
     # project -> lecturer
-    pls = R.local_appends('project_lecturers')
+    pls = R.lecturer_of_project_appends()
     if len(pls) != 1:
         rep.fail('C10.R3' if R.na == 3 else 'C10.R5', w, 'each project line names its lecturer once %s' % cfg, got='%d sites' % len(pls), construct='project_lecturers sites %s' % cfg)
     else:
@@ -850,5 +869,5 @@ def check_derived(rep, repo):
     im = repo.function('import_model', repo.rel('solver', 'fileIO.py'))
     order = [n.func.attr if isinstance(n.func, ast.Attribute) else getattr(n.func, 'id', '') for n in ast.walk(im.node) if isinstance(n, ast.Call)]
     need = ['set_project_lists', 'set_lecturer_lists', 'set_rank_lists']
-    rep.check(all(x in order for x in need) and '_import_from_file' in order, 'C10.R6', im.where, 'import_model reads the file and derives project, lecturer and rank lists', got=order,
+    rep.check(all(x in order for x in need) and repo.actual_function('_import_from_file') in order, 'C10.R6', im.where, 'import_model reads the file and derives project, lecturer and rank lists', got=order,
               want=['_import_from_file'] + need, construct='import_model steps')
